@@ -11,14 +11,16 @@ SF == <<0, 1, 2, 0, 1, 0, 2, 1>>
 
 SplitTable == << <<2, 1>>, <<3, 1>>, <<1, 2>>, <<3, 2>> >>
 \* [ac, cr, crf]
-EventTable == << <<0, 1, 0>>, <<3, 0, 0>>, <<0, 3, 1>>, <<2, 2, 0>>, <<0, 40, 0>> >>
+EventTable == << <<0, 1, 0>>, <<3, 0, 0>>, <<0, 3, 1>>, <<2, 2, 0>>, <<0, 40, 0>>, <<0, 20, 0>> >>
 
 \* cell of security number sh (0-based) on day slot d: bq / qden bought, sq / qden sold,
 \* split kind spk (0 = none), cost-event kind evk (0 = none)
-GenCellOf(sh, d, bq, sq, qden, spk, evk) ==
+\* (cheap = a day slot whose purchases cost 1 a share with no fee, so that lots of very different unit cost
+\*  meet one capital return; 0 = none)
+GenCellOfC(sh, d, bq, sq, qden, spk, evk, cheap) ==
   [bq |-> Norm(bq, qden),
-   bp |-> IF bq = 0 THEN Zero ELSE R(BP[d] + 3 * sh),
-   bf |-> IF bq = 0 THEN Zero ELSE R(BF[d] + sh),
+   bp |-> IF bq = 0 THEN Zero ELSE IF d = cheap THEN One ELSE R(BP[d] + 3 * sh),
+   bf |-> IF bq = 0 THEN Zero ELSE IF d = cheap THEN Zero ELSE R(BF[d] + sh),
    sq |-> Norm(sq, qden),
    sp |-> IF sq = 0 THEN Zero ELSE R(SP[d] + 2 * sh),
    sf |-> IF sq = 0 THEN Zero ELSE R(SF[d]),
@@ -26,4 +28,5 @@ GenCellOf(sh, d, bq, sq, qden, spk, evk) ==
    ac |-> IF evk = 0 THEN Zero ELSE R(EventTable[evk][1]),
    cr |-> IF evk = 0 THEN Zero ELSE R(EventTable[evk][2]),
    crf |-> IF evk = 0 THEN Zero ELSE R(EventTable[evk][3])]
+GenCellOf(sh, d, bq, sq, qden, spk, evk) == GenCellOfC(sh, d, bq, sq, qden, spk, evk, 0)
 =============================================================================
